@@ -322,6 +322,11 @@ impl BState {
                                         format!("offset_sign={} phc_related={} dir={}", if t.offset < 0.0 { "neg" } else { "nonneg" }, phc_related, if diff < 0 { "below" } else { "above" }),
                                         format!("report offset={:e} delay={:e} disp={:e} phc={:?} (ref match {}): published bound {} ns, exact formula gives {} ns", t.offset, t.delay, t.disp, info.as_ref().map(|i| i.phc), t.ref_id == phc_refid_of(phc_name), got, want),
                                     ));
+                                    // C08 (a): the record pairs this report's as-of with the bound of an
+                                    // earlier synchronised report
+                                    if !pre_sync && rec.bound == prev_bound && (rec.as_of_s, rec.as_of_ns) != prev_as_of {
+                                        viol.push((vec!["C08"], "bound_of_earlier_report", "kept".into(), format!("a synchronised report was published with its own as_of but with the previous record's bound {} ns (the report's own bound is {} ns)", got, want)));
+                                    }
                                 } else {
                                     probes.push("judged.bounds_vs_exact_formula");
                                 }
